@@ -3,6 +3,7 @@
 #   tools/scratch_env.sh <name> init            create /root/scratch/<name>/repo (git worktree of /repo HEAD)
 #   tools/scratch_env.sh <name> run <Cxx> [...] sync the harness, retarget it at the scratch repo, build, run the check
 #   tools/scratch_env.sh <name> test            run the repository's own test suite in the scratch repo
+#   tools/scratch_env.sh <name> snapshot        copy the committed harness to /root/scratch/harness-snapshot (VERIF_HARNESS_SRC)
 #   tools/scratch_env.sh <name> clean           remove the worktree and all build output
 # Evidence/replays of such runs go to /root/scratch/<name>/out, never to /verif.
 set -u
@@ -15,7 +16,9 @@ case "$CMD" in
   run)
     ID="$1"; shift; low=$(echo "$ID" | tr 'A-Z' 'a-z')
     mkdir -p "$S/harness" "$S/out"
-    rsync -a --delete --exclude target /verif/harness/ "$S/harness/"
+    # VERIF_HARNESS_SRC: a snapshot of the harness (tools/scratch_env.sh <name> snapshot) so that long batches are
+    # not disturbed by edits under /verif/harness
+    rsync -a --delete --exclude target "${VERIF_HARNESS_SRC:-/verif/harness}/" "$S/harness/"
     grep -rlZ "/repo/" "$S/harness" --include=*.toml --include=*.rs --include=*.sh --include=*.py | xargs -0 -r sed -i "s#/repo/#$S/repo/#g"
     sed -i "s#/verif/.build/target#$S/target#; s#/verif/harness#$S/harness#g" "$S/harness/.cargo/config.toml"
     cp "$S/repo/Cargo.lock" /dev/null 2>&1
@@ -25,6 +28,9 @@ case "$CMD" in
     if ! cargo build --offline --profile verif --bin "$low" >"$S/build-$low.log" 2>&1; then
       echo "MACHINERY ERROR: build failed (see $S/build-$low.log)"; tail -30 "$S/build-$low.log"; exit 2; fi
     exec "$S/target/verif/$low" "$@" ;;
+  snapshot)
+    # committed state of the harness -> /root/scratch/harness-snapshot (use with VERIF_HARNESS_SRC)
+    rm -rf /root/scratch/harness-snapshot && mkdir -p /root/scratch/harness-snapshot && git -C /verif archive HEAD harness | tar -x -C /root/scratch/harness-snapshot --strip-components=1 && echo /root/scratch/harness-snapshot ;;
   test)
     cd "$S/repo" && CARGO_TARGET_DIR="$S/repo-target" cargo test --workspace --no-fail-fast --offline 2>&1 | grep -E "^test result|FAILED|failed|panicked|error" ;;
   clean)
